@@ -48,6 +48,11 @@ checks.update({
    text="2-3 worker threads run real requests (library and HTTP handlers) against one shared storage (in-memory, one SQLite object, one SQLite object per worker on one directory) under a controller that grants one worker at a time at every storage call, transaction begin and request invoke/return. All begin orders exclusive locking permits are enumerated per scenario (capped in quick), plus randomly scheduled executions that begin a transaction while another is open so the backend's own lock/busy handler is exercised. An execution is accepted iff some real-time-respecting one-at-a-time order of the same requests, executed by the same code on a fresh storage, gives the same responses and final state; any server error under overlap is a violation. One recorded finding (two-step client creation observable through AddSnapshot) is matched by signature and printed as KNOWN-FINDING.",
    note="Bounded: 2-3 requests, yield points at storage-call granularity; interleavings inside SQLite and between processes are left to the stress tier. The sequential reference is the code itself (differential), so a purely sequential defect is not attributed to C03."),
 })
+checks.update({
+ "C05": dict(cat="fault_enumeration", tech="runtime monitoring: exhaustive fault injection at the StorageTxn boundary (every call of every request, fail-before / fail-after) with error/no-partial-effect/lock-release oracle on restored directory images", ref="DESIGN.md §7 C05",
+   text="For every request of generated histories on SQLite (library and HTTP handlers, incl. the create-client-and-retry path) the storage call sequence is learned, then each call is made to fail before or after taking effect on a restored image of the data directory: the client must get an error, all SQL rows must equal the pre-state (post-state only for a commit that took effect), no transaction may stay open, and follow-up requests must succeed (thorough: second fault in the follow-up).",
+   note="Faults are synthetic errors at the public trait boundary; single faults exhaustive, double faults = fault in the request + fault in the follow-up. SQLite-internal I/O error paths are covered by the VFS engine when built."),
+})
 checks.update(json.load(open('/verif/tools/manifest_extra.json')) if __import__('os').path.exists('/verif/tools/manifest_extra.json') else {})
 
 m = {
